@@ -139,6 +139,8 @@ type Machine struct {
 	models    []*modelT
 	cacheHits int
 
+	cfn         string // C function being interpreted (C15)
+	cheap       int    // C heap pseudo-address counter
 	hangLimit   int
 	maxSteps    int
 	quietFS     bool
